@@ -31,7 +31,9 @@ def _eng_nontrivial(line, verdict):
 
 
 _ENG_RULE = ("eng: structured rule sets (1-6 rules + markers, chains up to 4 links, keyed/regex-keyed/whole/count targets with "
-             "string and regex exclusions over ARGS*/REQUEST_HEADERS*/TX/MATCHED_* (27 key expressions incl. upper case, "
+             "string and regex exclusions over ARGS*/REQUEST_HEADERS*/TX/MATCHED_* and the request-line variables REQUEST_URI(_RAW)/"
+             "REQUEST_FILENAME/REQUEST_BASENAME/QUERY_STRING/REQUEST_LINE/METHOD/PROTOCOL fed by ProcessURI (35% of the cases: a path, often a "
+             "query whose arguments join ARGS_GET, sometimes a fragment) (27 key expressions incl. upper case, "
              "classes, \\D \\W \\b, (?i), alternation, counted repetition), 15 operators (incl. @rx over the regex model and @ipMatch) with literal and macro arguments, "
              "transformation lists, multiMatch, setvar/ctl actions, all disruptive actions, skip/skipAfter, severity, tags) "
              "rendered to SecLang for the real WAF and sent as JSON to the Lean model; requests with duplicate, mixed-case, "
@@ -43,7 +45,8 @@ _ENG_MODELLED = ("modelled: RuleGroup.Eval, Rule.doEvaluate, GetField and the Ma
                  "deny/drop/redirect/block/pass/allow/skip/skipAfter; regex keys (selection, exclusion, ctl) through the exact "
                  "regex model of lean/Coraza/Model/Regex.lean (expression text parsed in Lean, matcher proved against its "
                  "declarative semantics); configuration-time SecRuleRemoveById/ByTag, SecRuleUpdateTargetById/ByTag, "
-                 "SecRuleUpdateActionById as rewrites of the rule list (buildRules). Not modelled: "
+                 "SecRuleUpdateActionById as rewrites of the rule list (buildRules); ProcessURI on URIs with an unreserved path "
+                 "(Model/Uri.lean: request-line variables, query arguments in document order). Not modelled: "
                  "XML/JSON selectors, multiphase build, body processors (C03/C10), audit logging (C19); regex keys outside the "
                  "fragment or over non-ASCII names are judged by the monitor only.")
 _ENG_ASSUME = ["Go map iteration order is arbitrary: match data are compared as multisets and the generator only emits "
